@@ -60,7 +60,7 @@ def _sibling_candidates(rng, recipe):
         if o == "fillna":
             out.append(("fillna int->float", mod(value=float(op["value"]))))
             out.append(("fillna+1", mod(value=op["value"] + 1)))
-        if o == "map_partitions":
+        if o == "map_partitions" and "c" in (op.get("kwargs") or {}):
             out.append(("udf kwarg c+1", mod(kwargs={"c": op["kwargs"]["c"] + 1})))
             out.append(("udf kwarg int->float", mod(kwargs={"c": float(op["kwargs"]["c"])})))
         if o == "assign" and op["expr"][0] in ("add", "mul", "sub") and op["expr"][2][0] == "lit":
